@@ -109,8 +109,8 @@ Print Assumptions C07_longest_side_becomes_max_size.
 
 (* RandomSizedCrop, the sized box-safe crop and keep_size: exactly the promised shape, and with nearest
    interpolation (the mask path) no voxel that was not in the input (no fill voxels) *)
-From DV.proofs Require Import Values SizedCrop CropPad.
-From DV.gen Require Import Gen_cls_crops_dicom.
+From DV.proofs Require Import Values SizedCrop CropPad BorderCrop.
+From DV.gen Require Import Gen_cls_crops_dicom Gen_cls_crops.
 Theorem C07_sized_crops_return_the_promised_shape :
   (forall v H W D ch cw cd hs ws sh sw sd ip c r s,
      vshape v = (H, W, D) -> (0 < ch <= H)%Z -> (0 < cw <= W)%Z -> (0 < cd <= D)%Z -> 0 <= hs < 1 -> 0 <= ws < 1 ->
@@ -137,6 +137,21 @@ Theorem C07_RandomSizedCrop_sampler_meets_the_hypotheses : forall d2h lo hi w2h 
   cw = py_int (inject_Z ch * w2h) /\ cd = py_int (inject_Z ch * d2h).
 Proof. exact RandomSizedCrop_params. Qed.
 Print Assumptions C07_RandomSizedCrop_sampler_meets_the_hypotheses.
+
+(* RandomCropFromBorders: for every volume, every six fractions and every six draws, each face of the sampled window
+   lies in the band its OWN fraction documents (near faces within the first crop_left / crop_top / crop_close part
+   of the extent, far faces at or beyond 1 - crop_right / crop_bottom / crop_far of it) and the window is a
+   non-empty window of the frame *)
+Theorem C07_RandomCropFromBorders_faces_stay_in_their_documented_bands :
+  forall bottom close far left right top v H W D d1 d2 d3 d4 d5 d6 x1 x2 y1 y2 z1 z2,
+  vshape v = (H, W, D) ->
+  RandomCropFromBordersS_get_params_dependent_on_targets bottom close far left right top v d1 d2 d3 d4 d5 d6
+    = Ok (x1, x2, y1, y2, z1, z2) ->
+  ((0 <= x1 <= py_int (left * inject_Z W) /\ Z.max (x1 + 1) (py_int ((1 - right) * inject_Z W)) <= x2 <= W) /\
+   (0 <= y1 <= py_int (top * inject_Z H) /\ Z.max (y1 + 1) (py_int ((1 - bottom) * inject_Z H)) <= y2 <= H) /\
+   (0 <= z1 <= py_int (close * inject_Z D) /\ Z.max (z1 + 1) (py_int ((1 - far) * inject_Z D)) <= z2 <= D))%Z.
+Proof. exact RandomCropFromBorders_faces_in_their_bands. Qed.
+Print Assumptions C07_RandomCropFromBorders_faces_stay_in_their_documented_bands.
 
 (* CropAndPad never crops an axis away ("This transformation will never crop images below a height or width of 1"):
    for ALL non-negative crop amounts the amounts that reach the crop are non-negative, not larger than requested,
